@@ -37,8 +37,12 @@ mod verif_c03_wrapper {
                 v.push(LineType::Empty);
                 v.push(LineType::Bar("A".into()));
             }
-            _ => {
+            2 => {
                 v.push(LineType::Bar("A".into()));
+            }
+            _ => {
+                // a member that paints no bar line (finished and cleared) but prints
+                v.push(LineType::Text("x".into()));
             }
         }
         v
@@ -63,9 +67,13 @@ mod verif_c03_wrapper {
                 assert!(orphans.len() == 2 && kind(&orphans[1]) == b'e');
                 assert!(ds.lines.len() == 1 && kind(&ds.lines[0]) == b'A');
             }
-            _ => {
+            2 => {
                 assert!(orphans.len() == 1);
                 assert!(ds.lines.len() == 1 && kind(&ds.lines[0]) == b'A');
+            }
+            _ => {
+                assert!(orphans.len() == 2 && kind(&orphans[1]) == b'x');
+                assert!(ds.lines.is_empty());
             }
         }
         std::mem::forget(ds);
@@ -102,5 +110,13 @@ mod verif_c03_wrapper {
         }
         assert!(ds.lines.len() == 2);
         std::mem::forget(ds);
+    }
+
+    // @harness id=C03 tier=quick timeout=1500 mem=24 checks=rust
+    // @bounds member frame [Text x] with no bar line at all (println through a finished-and-cleared member): the line still moves to the orphans, the frame is left empty
+    #[kani::proof]
+    #[kani::unwind(6)]
+    fn c03_wrapper_moves_text_of_barless_frame() {
+        run(3);
     }
 }
